@@ -45,7 +45,13 @@ T3 == LET s == MkNodes(EmptyState, <<"a", "b", "a", "b", "s">>)
                    !.prefix = <<"x", NOSTR, "y", NOSTR, NOSTR>>, !.content = <<NULL, NULL, 1, 1, NULL>>,
                    !.extras = << <<>>, <<<<"k1", 1>>>>, <<<<"k2", 2>>>>, <<>>, <<>> >>,
                    !.attrs = << <<<<"k1", 1>>>>, <<>>, <<>>, <<<<"k2", 2>>>>, <<>> >>]
-Templates == {T1, T2, T3}
+(* siblings that differ only in WHICH key carries a value, one of them the value None (atom 0): a comparison that
+   looks keys up with a default cannot tell them apart *)
+T4 == LET s == MkNodes(EmptyState, <<"a", "b", "b", "b", "b", "s">>)
+      IN [s EXCEPT !.kids = <<<<2, 3, 4, 5>>, <<>>, <<>>, <<>>, <<>>, <<>>>>,
+                   !.attrs  = << <<>>, <<<<"k1", 0>>>>, <<<<"k2", 1>>>>, <<>>, <<>>, <<>> >>,
+                   !.extras = << <<>>, <<>>, <<>>, <<<<"k1", 0>>>>, <<<<"k2", 1>>>>, <<>> >>]
+Templates == {T1, T2, T3, T4}
 ImportShapes == {<<0>>, <<0, 1, 1>>, <<0, 1, 2>>}   \* parent position of each node, in pre-order
 
 Init ==
@@ -121,7 +127,7 @@ Next == TLCGet("level") < MaxLevel /\
        \/ \E t \in Texts \cup {NULL} : SetContent(p, t) \/ SetTail(p, t)
        \/ \E x \in NameSet : SetName(p, x)
        \/ \E q \in Prefixes \cup {NOSTR} : SetPrefix(p, q)
-       \/ \E k \in Keys : RemoveAttribute(p, k) \/ \E v \in Texts : AddAttribute(p, k, v) \/ AddExtras(p, k, v)
+       \/ \E k \in Keys : RemoveAttribute(p, k) \/ \E v \in Texts \cup {NULL} : AddAttribute(p, k, v) \/ AddExtras(p, k, v)   \* None is a legal value
 
 Spec == Init /\ [][Next]_vars
 
@@ -183,10 +189,12 @@ CONSTANT LogFields        \* which state fields the binding logs (the others are
 Pj(S) == [f \in LogFields |-> S[f]]
 LogTransition == TLCGet("level") < MaxLevel => PrintT(ToJson([k |-> "T", from |-> Pj(st), op |-> op', to |-> Pj(st')]))
 LogState      == PrintT(ToJson([k |-> "S", st |-> Pj(st)]))
-LogStateEq    == TLCGet("level") <= MaxLevel => PrintT(ToJson([k |-> "E", st |-> Pj(st),
+LogStateEq    == TLCGet("level") <= MaxLevel => PrintT(ToJson([k |-> "E", st |-> Pj(st), lvl |-> TLCGet("level"),
                     eq |-> {<<a, b>> \in Nodes \X Nodes : a # b /\ TreeEq(st, a, b)}]))
 (* MC_Copy: the first step copies a template subtree, then edits follow, to a bounded depth *)
-CopyFirst == op.name = "init" => op'.name = "copy"
+(* optionally one remove_namespace first, so that a copied subtree may hold a node that lacks a prefix its parent has *)
+CopyFirst == /\ (op.name = "init" => op'.name \in {"copy", "remove_namespace"})
+             /\ (op.name = "remove_namespace" /\ TLCGet("level") = 2 => op'.name = "copy")
 LevelStep == TLCGet("level") < MaxLevel         \* ACTION_CONSTRAINT: states at MaxLevel are not expanded
 LogStateQ     == PrintT(ToJson([k |-> "Q", st |-> Pj(st), q |-> Queries(st)]))
 =============================================================================
